@@ -8,6 +8,7 @@ mod c02;
 mod c03;
 mod c04;
 mod c08;
+mod c11;
 mod c15;
 mod dec;
 mod c17;
@@ -146,6 +147,7 @@ fn main() {
         "c09" => c02::run_c09(&mut ctx, replay_lines.as_deref()),
         "c03" => c03::run(&mut ctx, replay_lines.as_deref()),
         "c08" => c08::run(&mut ctx, replay_lines.as_deref()),
+        "c11" => c11::run(&mut ctx, replay_lines.as_deref()),
         "c15" => c15::run(&mut ctx, replay_lines.as_deref()),
         "c17" => c17::run(&mut ctx, replay_lines.as_deref()),
         _ => {
